@@ -1,7 +1,7 @@
 mod flags;
 pub mod parameter;
 
-use std::{io, num::NonZero};
+use std::{io, iter, num::NonZero};
 
 pub use self::{flags::Flags, parameter::Parameter};
 use self::{flags::read_flags, parameter::fqz_decode_single_param};
@@ -103,44 +103,46 @@ fn read_selector_table(src: &mut &[u8]) -> io::Result<Vec<u8>> {
 }
 
 pub fn read_array(src: &mut &[u8], n: usize) -> io::Result<Vec<u8>> {
-    let (mut j, mut z) = (0, 0);
+    // The values of an array are bytes and nondecreasing, i.e., there are at most 256 runs. A run
+    // has one more part for every 255 elements.
+    let max_run_part_count = 256 + n / 255 + 1;
+
+    let mut z = 0;
     let mut last = 0;
 
-    let mut runs = vec![0; n];
+    let mut runs = Vec::new();
 
     while z < n {
         let run = read_u8(src)?;
 
-        runs[j] = run;
-        j += 1;
+        runs.push(run);
         z += usize::from(run);
 
         if run == last {
-            let copy = read_u8(src)?;
+            let copy = read_u8(src).map(usize::from)?;
+            runs.extend(iter::repeat_n(run, copy));
+            z += usize::from(run) * copy;
+        }
 
-            for _ in 0..copy {
-                runs[j] = run;
-                j += 1;
-            }
-
-            z += usize::from(run) * usize::from(copy);
+        if runs.len() > max_run_part_count {
+            return Err(invalid_array());
         }
 
         last = run;
     }
 
-    let mut a = vec![0; n];
+    let mut a = Vec::with_capacity(n);
 
-    let mut i = 0;
-    j = 0;
-    z = 0;
+    let mut parts = runs.into_iter();
+    let mut values = 0..=u8::MAX;
 
-    while z < n {
+    while a.len() < n {
+        let value = values.next().ok_or_else(invalid_array)?;
+
         let mut run_len = 0;
 
         loop {
-            let part = runs[j];
-            j += 1;
+            let part = parts.next().ok_or_else(invalid_array)?;
             run_len += usize::from(part);
 
             if part != 255 {
@@ -148,13 +150,17 @@ pub fn read_array(src: &mut &[u8], n: usize) -> io::Result<Vec<u8>> {
             }
         }
 
-        for _ in 0..run_len {
-            a[z] = i;
-            z += 1;
-        }
-
-        i += 1;
+        // The last run is clamped to the size of the array.
+        let len = run_len.min(n - a.len());
+        a.extend(iter::repeat_n(value, len));
     }
 
     Ok(a)
+}
+
+fn invalid_array() -> io::Error {
+    io::Error::new(
+        io::ErrorKind::InvalidData,
+        "invalid run-length encoded array",
+    )
 }
